@@ -602,3 +602,124 @@ Proof.
   destruct (control_eqb (r_control r0) CSyn); inversion H; subst; eexists;
     (split; [reflexivity|]); repeat split; auto.
 Qed.
+
+(* the retransmission timer fires: SND.NXT is rewound to SND.UNA *)
+Lemma dt_rto : forall cx s s1 tg e,
+  tcp_live_inv s -> s_timeout s = None ->
+  s_timer s = TRetransmit e -> e <= cx_now cx ->
+  (0 < rb_len (s_tx_buffer s) -> s_remote_win_len s <> 0) ->
+  tcp_dispatch_timers cx s = Ok (s1, tg) ->
+  s_state s1 = s_state s /\ s_tx_buffer s1 = s_tx_buffer s /\
+  s_local_seq_no s1 = s_local_seq_no s /\ s_remote_win_len s1 = s_remote_win_len s /\
+  s_remote_mss s1 = s_remote_mss s /\ s_tuple s1 = s_tuple s /\
+  s_remote_last_seq s1 = s_local_seq_no s /\
+  (timer_is_idle (s_timer s1) = true \/
+   exists e1, s_timer s1 = TRetransmit e1 /\ cx_now cx < e1 <= cx_now cx + max_rto_us).
+Proof.
+  intros cx s s1 tg e I Hto Ht He Hw H. unfold tcp_dispatch_timers in H. fold (dt_pre cx s) in H.
+  pose proof (dt_pre_core cx s) as (C1 & C2 & C3 & C4 & C5 & C6 & C7 & C8 & C9 & C10).
+  pose proof (dt_pre_misc cx s) as (M1 & _ & _).
+  assert (Cm : s_remote_mss (dt_pre cx s) = s_remote_mss s)
+    by (unfold dt_pre; destruct (is_some (s_remote_last_ts s)); sproj; reflexivity).
+  pose proof (rto_le_max _ (rtte_on_rto_ok _ (li_rtte s I))) as Hr. rewrite <- C10 in Hr.
+  revert H C1 C2 C3 C4 C5 C6 C7 C8 C9 C10 M1 Cm Hr. generalize (dt_pre cx s).
+  intros q H C1 C2 C3 C4 C5 C6 C7 C8 C9 C10 M1 Cm Hr.
+  assert (Hnto : tcp_timed_out q (cx_now cx) = false).
+  { unfold tcp_timed_out. rewrite M1, Hto. destruct (s_remote_last_ts q); reflexivity. }
+  rewrite Hnto, C2, Ht in H. cbn [timer_should_retransmit] in H.
+  destruct (Z.geb_spec (cx_now cx) e); [|lia].
+  obind_inv H. sproj in H.
+  destruct (s_pending_fast_retransmit q).
+  - inversion H; subst s1 tg; clear H. sproj. rewrite C1, C3, C4, C5, C7, Cm.
+    repeat split; try reflexivity. right. eexists. split; [reflexivity|].
+    unfold rtte_retransmission_timeout in *. cbn [rt_rto rtte_on_retransmit] in *. lia.
+  - destruct ((s_remote_win_len q =? 0) && negb (rb_is_empty (s_tx_buffer q))) eqn:Hz.
+    + exfalso. apply andb_true_iff in Hz. destruct Hz as (Hz1 & Hz2).
+      rewrite C7 in Hz1. rewrite C4 in Hz2. unfold rb_is_empty in Hz2.
+      pose proof (li_tx s I) as ((Hl0 & _) & _). apply Hw; lia.
+    + inversion H; subst s1 tg; clear H. sproj. rewrite C1, C3, C4, C5, C7, Cm.
+      repeat split; try reflexivity. left. reflexivity.
+Qed.
+
+(* after a segment that occupies sequence space the retransmission timer runs, with a deadline in
+   (now, now + RTTE_MAX_RTO] *)
+Lemma finish_rearms : forall cx s repr,
+  tcp_live_inv s -> st_live (s_state s) = true -> 0 < repr_segment_len repr ->
+  (timer_is_idle (s_timer s) = true \/
+   exists e1, s_timer s = TRetransmit e1 /\ cx_now cx < e1 <= cx_now cx + max_rto_us) ->
+  let s' := fst (tcp_dispatch_finish cx s repr false false) in
+  (exists e', s_timer s' = TRetransmit e' /\ cx_now cx < e' <= cx_now cx + max_rto_us) /\
+  s_local_seq_no s' = s_local_seq_no s /\ s_state s' = s_state s.
+Proof.
+  intros cx s repr I L Hlen Ht. unfold tcp_dispatch_finish. sproj.
+  assert (Hl : (repr_segment_len repr >? 0) = true) by lia. rewrite Hl. cbn [andb]. sproj.
+  pose proof (rto_le_max _ (li_rtte s I)) as Hr.
+  assert (Hncl : tcp_state_eqb (s_state s) Closed = false) by (destruct (s_state s); try discriminate; reflexivity).
+  destruct Ht as [Hi | (e1 & He1 & Hb)].
+  - destruct (s_timer s) as [k|e| |e d|e] eqn:Hts; try discriminate. cbn [timer_rewind_keep_alive timer_is_retransmit negb].
+    sproj. rewrite Hncl. cbn [fst]. sproj. cbn [timer_set_for_retransmit].
+    split; [|split; reflexivity]. eexists. split; [reflexivity|].
+    unfold rtte_retransmission_timeout in *. rewrite rtte_on_send_rto. lia.
+  - rewrite He1. cbn [timer_rewind_keep_alive timer_is_retransmit negb]. sproj. rewrite Hncl. cbn [fst]. sproj.
+    split; [|split; reflexivity]. exists e1. split; [reflexivity | exact Hb].
+Qed.
+
+(* PROGRESS STEP (sender side).  A socket with unacknowledged data / SYN / FIN whose retransmission
+   timer is due, polled on a device that accepts the frame (no user timeout configured, remote
+   window not closed - in that case the probe timer is armed instead -, MTU leaving room for
+   payload): the dispatch transmits a segment that starts at SND.UNA and occupies sequence space
+   (the oldest unacknowledged octets, SYN or FIN), and re-arms the retransmission timer with a
+   deadline in (now, now + RTTE_MAX_RTO]. *)
+Theorem rto_retransmits : forall cx s e s' res tags,
+  tcp_live_inv s -> tcp_need s ->
+  s_timer s = TRetransmit e -> e <= cx_now cx ->
+  s_timeout s = None ->
+  (forall t, s_tuple s = Some t -> tu_local_addr t = cx_addr cx) ->
+  (0 < rb_len (s_tx_buffer s) -> s_remote_win_len s <> 0) ->
+  mss_ok cx s ->
+  tcp_dispatch cx s true = Ok (s', res, tags) ->
+  exists ip repr,
+    res = DSent (ip, repr) /\
+    r_seq_number repr = s_local_seq_no s /\ 0 < repr_segment_len repr /\
+    (exists e', s_timer s' = TRetransmit e' /\ cx_now cx < e' <= cx_now cx + max_rto_us) /\
+    s_local_seq_no s' = s_local_seq_no s /\ s_state s' = s_state s.
+Proof.
+  intros cx s e s' res tags I N Ht He Hto Haddr Hw Hmss H. unfold tcp_dispatch in H.
+  pose proof (need_live s I N) as L.
+  pose proof (li_tuple s I (live_conn _ L)) as Htu.
+  destruct (s_tuple s) as [t|] eqn:Etu; [|congruence].
+  rewrite (Haddr t eq_refl), Z.eqb_refl in H. cbn [negb] in H.
+  obind_inv H. destruct a as (s1, t1). rename E into Edt.
+  pose proof (dispatch_timers_inv _ _ _ _ I Edt) as I1.
+  destruct (dt_rto _ _ _ _ _ I Hto Ht He Hw Edt) as (D1 & D2 & D3 & D4 & D5 & D6 & D7 & D8).
+  assert (N1 : tcp_need s1) by (unfold tcp_need in *; rewrite D1, D2; exact N).
+  assert (Hfl1 : s_remote_last_seq s1 = s_local_seq_no s1) by congruence.
+  assert (Hw1 : 0 < rb_len (s_tx_buffer s1) -> s_remote_win_len s1 <> 0) by (rewrite D2, D4; exact Hw).
+  assert (Hmss1 : mss_ok cx s1) by (unfold mss_ok in *; rewrite D5; exact Hmss).
+  assert (Hzp1 : timer_should_zero_window_probe (s_timer s1) (cx_now cx) = false).
+  { destruct D8 as [Hi | (e1 & -> & _)]; [|reflexivity]. destruct (s_timer s1); try discriminate; reflexivity. }
+  (* decide: there is something to transmit *)
+  obind_inv H. destruct a as ((s2, go), t2). rename E into Edd.
+  assert (Hgo : s2 = s1 /\ go = true).
+  { unfold tcp_dispatch_decide in Edd.
+    destruct (tcp_seq_to_transmit cx s1) as [[|]|e0|] eqn:Estt; cbn [obind] in Edd; try discriminate.
+    - inversion Edd; auto.
+    - exfalso. exact (stt_when_idle cx s1 I1 N1 Hfl1 Hw1 Estt). }
+  destruct Hgo as (-> & ->). cbn [negb] in H.
+  (* build: a segment at SND.UNA that occupies sequence space *)
+  obind_inv H. destruct a as ((((s3, o), z), k), t3). rename E into Ebd.
+  destruct (build_core _ _ _ _ _ _ _ _ Ebd) as (C3 & _).
+  destruct (build_sends _ _ _ _ _ _ _ _ I1 N1 Hmss1 Hfl1 Hw1 Hzp1 Ebd) as (repr & -> & -> & -> & Hseq & Hlen).
+  cbn [negb] in H.
+  pose proof (inv_core_eq _ _ C3 I1) as I3.
+  destruct C3 as (C31 & C32 & _ & _ & C35 & _).
+  assert (L3 : st_live (s_state s3) = true) by (rewrite C31, D1; exact L).
+  assert (T3 : timer_is_idle (s_timer s3) = true \/
+               exists e1, s_timer s3 = TRetransmit e1 /\ cx_now cx < e1 <= cx_now cx + max_rto_us)
+    by (rewrite C32; exact D8).
+  pose proof (finish_rearms cx s3 repr I3 L3 Hlen T3) as (F1 & F2 & F3).
+  destruct (tcp_dispatch_finish cx s3 repr false false) as (s4, t4). cbn [fst] in *.
+  inversion H; subst s' res tags; clear H.
+  eexists. exists repr. split; [reflexivity|].
+  split; [congruence|]. split; [exact Hlen|]. split; [exact F1|]. split; congruence.
+Qed.
